@@ -15,6 +15,7 @@ CONSTANTS
   AllowConcurrent = FALSE
   GcStopsOnUnreadableHunk = TRUE
   GcBandsBeforeBlocks = TRUE
+    TailCarriesCount = TRUE
   GcRefusesHeadlessNewest = TRUE
 INVARIANTS Inv_ValidateQuietOnHealthy Inv_ValidateAdequate
 CHECK_DEADLOCK FALSE
